@@ -44,7 +44,8 @@ def search(method):
                 if method == "update":
                     if not _compatible(a, b):
                         continue
-                elif a._is_rooted_trees is not b._is_rooted_trees:
+                elif not (a._is_rooted_trees is b._is_rooted_trees or (len(b) == 0 and b._is_rooted_trees is None)
+                          or (len(a) == 0 and a._is_rooted_trees is None)):
                     continue
                 try:
                     if method == "update":
